@@ -5,12 +5,12 @@ CFG = dict(
     theorems=[
         # geometry facts about the regenerated AABB code / the hand-modelled slab test (over ℝ)
         "aabb_lower_bound", "aabb_contains_mono", "aabb_distance_mono", "slab_mono", "slab_sound", "aabb_encapsulate_contains",
-        "seg_cp_cases", "prim_closest_in_box", "prim_box_wf",
+        "seg_cp_cases", "tri_closest_in_box", "prim_closest_in_box", "prim_box_wf",
         # pruned queries = exhaustive scan for EVERY tree with the invariant
         "pruned_eq_scan", "containing_eq_scan_generic",
         "containing_eq_scan", "withinRange_eq_scan", "rayElements_eq_scan", "traverse_visits_all_hits",
         # best-first closest point
-        "closest_eq_scan_generic", "closest_eq_scan",
+        "closest_eq_scan_generic", "closest_eq_scan", "octree_closest_eq_scan_of_input",
         # newOctree establishes the invariant: every element list, every depth
         "build_covers", "octree_queries_eq_scan_of_input",
         # BVH
@@ -31,9 +31,8 @@ CFG = dict(
         "observed (oracles at element vertices/box corners, corpus case), not proved",
         "an element's ClosestPoint may lie an ulp outside its own float box, so at float64 ClosestPoint can return an element that is "
         "not the nearest by less than rounding: the oracle compares by distance with relative tolerance 1e-9 (ties aside)",
-        "closest_eq_scan needs, per element, that its closest point lies in its box: proved for points, segments and boxes "
-        "(prim_closest_in_box); for triangles (scopedTri.ClosestPoint: plane projection, PointInSide, nearest edge — modelled and "
-        "corresponded bit-for-bit) it is a hypothesis, not proved",
+        "degenerate (zero-area) triangles and boxes with negative extents are excluded by hypothesis in prim_closest_in_box / "
+        "octree_closest_eq_scan_of_input (the code divides by the normal's length for such triangles: NaN)",
         "BVH: theorems hold for every tree satisfying BInv (boxes cover; NewBVHTree establishes it: bvh_build_covers) and for primitives "
         "whose Hit reports the first hit exactly when it is within the range, and only where the slab test accepts their box "
         "(slab_sound: true whenever the hit point is in the box, range non-empty, no zero direction component); that rendering.Triangle / "
